@@ -61,7 +61,7 @@ pub async fn layer_ep(ctx: &Ctx, host: &str, peer_host: &str, is_client: bool, c
     let cert = crate::sim::cert(cert_idx);
     let (dtls, incoming, runner) = DtlsTransport::new(conn.clone(), cert, is_client, 2048, expected_fp).await.expect("DtlsTransport::new");
     let run = tokio::spawn(vh::wrap_task(runner));
-    ctx.keys.lock().unwrap().push(KeySrc { host: me.ip(), dtls: dtls.clone(), is_client });
+    ctx.keys.lock().unwrap().push(KeySrc { host: me.ip(), dtls: dtls.clone(), is_client, role_unknown: false });
     LayerEp { host: host.into(), addr: me, conn, dtls, incoming: Some(incoming), sock_tx, tasks: vec![pump, run], is_client }
 }
 
